@@ -92,7 +92,7 @@ func xmlCanon(evs []xEvent, ents map[string]string) ([]xItem, error) {
 			lastKind = 'P'
 		case 'D':
 			flush('D')
-			items = append(items, xItem{kind: 'D', data: collapseWS(e.Data)})
+			items = append(items, xItem{kind: 'D', data: collapseOutsideQuotes(e.Data)}) // white space inside quoted literals is part of them
 			lastKind = 'D'
 		}
 	}
@@ -439,9 +439,11 @@ func genXMLDoc(r *core.Rand, guards map[string]int) string {
 	if r.Chance(1, 4) {
 		if r.Chance(1, 2) {
 			g.ents = []string{"e1", "e2"}
-			sb.WriteString("<!DOCTYPE doc [\n<!ENTITY e1 \"val one\">\n<!ENTITY e2 \"x&#38;y\">\n]>")
+			// literals with white space runs, tabs and line breaks inside (they belong to the entity value)
+			e1 := r.Pick([]string{"val one", "J.  Doe", "a\tb", "two\n  lines", " lead and trail "})
+			sb.WriteString("<!DOCTYPE doc [\n<!ENTITY e1 \"" + e1 + "\">\n<!ENTITY e2 \"x&#38;y\">\n]>")
 		} else {
-			sb.WriteString(r.Pick([]string{`<!DOCTYPE doc SYSTEM "doc.dtd">`, `<!DOCTYPE doc PUBLIC "-//X//Y" "http://x/y.dtd">`, `<!DOCTYPE doc>`}))
+			sb.WriteString(r.Pick([]string{`<!DOCTYPE doc SYSTEM "doc.dtd">`, `<!DOCTYPE doc PUBLIC "-//X//Y" "http://x/y.dtd">`, `<!DOCTYPE doc>`, `<!DOCTYPE doc SYSTEM "my  docs/doc.dtd">`, "<!DOCTYPE doc PUBLIC \"-//X//Y  Z\"\n  'http://x/a  b.dtd'>"}))
 		}
 		sb.WriteString(g.ws())
 	}
